@@ -17,7 +17,7 @@ import builtins as _builtins
 from dataclasses import dataclass, field
 from typing import Any, Optional
 
-from .report import AnalysisError
+from .report import AnalysisError, Unproven
 from .srcmodel import ClassInfo, FuncInfo, ModuleInfo, Program, dotted, target_names
 
 Term = tuple
@@ -310,7 +310,7 @@ class Evaluator:
             self._summaries[f.qual] = self.evaluate(f, None, None)
         s = self._summaries[f.qual]
         if s is None:
-            raise AnalysisError(f"recursive evaluation of {f.qual}")
+            raise Unproven(f.qual, f"{f.qual} is (mutually) recursive: outside what the evaluator summarises")
         return s
 
     def evaluate(self, f: FuncInfo, args: Optional[dict], closure: Optional[Env], inline_depth: int = 0) -> Summary:
